@@ -175,6 +175,8 @@ pub fn check_spec(ctx: &Ctx, ap: &Airports, s: &Spec) -> Check {
 fn host() -> impl Strategy<Value = String> {
     prop_oneof![
         3 => "[a-z][a-z0-9]{0,8}(\\.[a-z]{2,5}){0,2}",
+        // host names as people type them: mixed case (kept as written for tcp/udp, see spec())
+        1 => "[A-Za-z][A-Za-z0-9]{0,8}(\\.[A-Za-z]{2,5}){0,2}",
         3 => (1u8..=254, 0u8..=255, 0u8..=255, 1u8..=254).prop_map(|(a, b, c, d)| format!("{a}.{b}.{c}.{d}")),
         1 => Just("localhost".to_string()),
         1 => Just("[::1]".to_string()),
@@ -201,7 +203,9 @@ fn spec(ap: &Airports) -> impl Strategy<Value = Spec> {
         .prop_map(|(scheme, host, port, path, args, reference, question_mark)| {
             // udp:// with an empty host is rejected ("empty host") although docs/sources.md shows `udp://:5678`;
             // the property speaks of specifications *with* a host, so that form is an observation, not a case
-
+            // ws:// is a "special" URL scheme: the url crate lower-cases its host, while tcp/udp hosts are opaque and
+            // kept as written; the websocket oracle therefore uses canonical (lower-case) hosts only
+            let host = if scheme == 2 { host.to_lowercase() } else { host };
             Spec { scheme, host, port, path, args, reference, question_mark }
         })
 }
@@ -272,6 +276,20 @@ pub fn run(ctx: &Ctx) {
     if Source::from_str("udp://:5678").is_err() {
         ctx.observe("`udp://:5678` (shown in docs/sources.md) is rejected with Err(\"empty host\"): outside the property (it requires a host), reported only");
     }
+    // very long strings (the property says every string): references of 10^3 .. 3*10^6 characters, which exceed
+    // the regex crate's size limit when compiled as a pattern (or as an escaped literal)
+    for (ch, n) in [("A", 1_000usize), ("A", 100_000), ("A", 1_000_000), ("A", 3_000_000), ("(", 100_000), ("\u{1f6e9}", 200_000), ("a|", 300_000), (".", 500_000), ("43.3,1.35 ", 100_000)] {
+        let big = ch.repeat(n);
+        ctx.class("very long reference");
+        for t in [big.clone(), format!("tcp://h:1@{big}"), format!(":4003?{big}")] {
+            let r = check_total(ctx, &t).map_err(|mut f| {
+                // keep the replay file small: the case is regenerated from (unit, count)
+                f.replay = json!({"kind": "long", "unit": ch, "count": n});
+                f
+            });
+            ctx.judge(r);
+        }
+    }
     // every listed fragment on its own (deterministic part)
     for t in ["", "foo", ":abc", ":99999", "udp://host", "192.168.0.1:10003@LFPG", "tcp://h:1@(", "tcp://h:1@[", "tcp://h:1@a{1000000000}", "rtlsdr:", "rtlsdr://serial=00000001", "rtlsdr:@LFBO", "http://default", ":4003", ":4003?LFBO", "ws://1.2.3.4:4003/get?LFBO"] {
         ctx.judge(check_total(ctx, t));
@@ -307,6 +325,13 @@ pub fn serial_main(args: &[String]) {
 }
 
 pub fn replay(ctx: &Ctx, v: &Value) {
+    if v["kind"] == "long" {
+        let big = v["unit"].as_str().unwrap_or("A").repeat(v["count"].as_u64().unwrap_or(1) as usize);
+        for t in [big.clone(), format!("tcp://h:1@{big}"), format!(":4003?{big}")] {
+            ctx.judge(check_total(ctx, &t));
+        }
+        return;
+    }
     let ap = airports();
     match v["kind"].as_str().unwrap_or("") {
         "spec" => {
